@@ -330,6 +330,16 @@ class Program:
             raise AnalysisError(f"anchor function vanished: {q}")
         return f
 
+    def method(self, q: str) -> Tuple[Function, Class]:
+        """the function that `Class.name` executes — defined in the class or
+        inherited — and the class of the receiver"""
+        cq, _, name = q.rpartition(".")
+        c = self.cls(cq)
+        f = self.find_method(c, name)
+        if f is None:
+            raise AnalysisError(f"anchor function vanished: {q}")
+        return f, c
+
     def cls(self, q: str) -> Class:
         c = self.classes.get(self.canonical(q))
         if c is None:
